@@ -30,6 +30,32 @@ use ckb_logger::{error, info};
 use ckb_store::{ChainDB, ChainStore};
 use ckb_types::{BlockNumberAndHash, H256};
 pub use init::{ChainServiceScope, build_chain_services, start_chain_services};
+/// verif hook: a gate called at named points of the chain service thread, where another thread of
+/// the service (the verifier) may make progress in between
+#[cfg(feature = "verif-hooks")]
+pub mod verif {
+    use std::sync::Mutex;
+
+    type Gate = Box<dyn FnMut(&str, &ckb_types::packed::Byte32) + Send>;
+    static GATE: Mutex<Option<Gate>> = Mutex::new(None);
+
+    /// Install (or remove) the gate
+    pub fn set_gate(gate: Option<Gate>) {
+        *GATE.lock().expect("lock") = gate;
+    }
+
+    pub(crate) fn gate(point: &str, hash: &ckb_types::packed::Byte32) {
+        let taken = GATE.lock().expect("lock").take();
+        if let Some(mut g) = taken {
+            g(point, hash);
+            let mut slot = GATE.lock().expect("lock");
+            if slot.is_none() {
+                *slot = Some(g);
+            }
+        }
+    }
+}
+
 /// verif hook: the orphan pool as a stand-alone structure
 #[cfg(feature = "verif-hooks")]
 pub use utils::orphan_block_pool::OrphanBlockPool;
